@@ -293,6 +293,32 @@ fn gen_c06(rng: &mut Rng, ctx: &mut Ctx, rep: &mut Report, emit: Emit) {
             rep.exhaustive_parts.push("extension-block data for block types 6, 7, 10: every initial byte x 15 body lengths".into());
         }
     }
+    // dtn endpoint IDs as they can arrive from the wire (any text): no "//", one or two slashes, multi-byte characters
+    // around every small byte offset — in every endpoint-ID position; the receive-path calls must all return
+    {
+        const RAW: [&str; 30] = ["", "/", "//", "///", "a", "ab", "abc", "/a", "//a", "//a/", "a//", "nöde1//svc", "/ö/nod/svc", "€//n1/svc", "😀/n1/svc", "aö", "ö", "/ö", "//ö", "//ö/",
+            "ab€", "é/", "a€/", "/€", "日本", "xé", "a€/x/y", "/é/node/in", "\u{7ff}/", "x\u{10000}"];
+        for raw in RAW {
+            let e = EndpointID::Dtn(1, dtn_address(raw.as_bytes()).unwrap());
+            for pos in 0..4 {
+                let mut b = Bundle::default();
+                b.primary.destination = EndpointID::with_dtn("d/x").unwrap();
+                b.primary.source = EndpointID::with_dtn("s/y").unwrap();
+                b.primary.creation_timestamp = bp7::CreationTimestamp::with_time_and_seq(1000, 0);
+                b.canonicals.push(new_canonical_block(1, 1, 0, CanonicalData::Data(vec![1])));
+                match pos { 0 => b.primary.destination = e.clone(), 1 => b.primary.source = e.clone(), 2 => b.primary.report_to = e.clone(),
+                    _ => b.canonicals.insert(0, new_canonical_block(6, 2, 0, CanonicalData::PreviousNode(e.clone()))) }
+                if let Some(base) = no_panic(|| b.to_cbor()) {
+                    emit(ctx, rep, format!("rx {}", hex(&base)));
+                    if let Some(Ok(d)) = no_panic(|| Bundle::try_from(base.as_slice())) {
+                        let s = show_bundle(&d);
+                        emit(ctx, rep, format!("validate {}", s)); emit(ctx, rep, format!("id {}", s)); emit(ctx, rep, format!("info {}", s));
+                        emit(ctx, rep, format!("upd {} 5 2000 {}", show_eid(&e), s));
+                    }
+                }
+            }
+        }
+    }
     let n = ctx.n(20_000, 2_000_000);
     for i in 0..n {
         let wfb = i % 4 != 0;
